@@ -82,6 +82,9 @@ pub enum Timing {
     T5,
     /// 500 ms line + second uninherited 300 ms line at 1200
     T6,
+    /// kiai on + velocity x2 at 1000, kiai off + velocity x1 at 1150, kiai on + velocity x0.5 at 1300 (effect points that
+    /// coincide with object starts when the first object starts at 1000 and gaps are 150)
+    T7,
 }
 
 #[derive(Clone, Debug, PartialEq, Eq, Hash)]
@@ -148,6 +151,7 @@ impl MapSpec {
             Timing::T4 => s.push_str("0,6,4,2,0,60,1,0\n"),
             Timing::T5 => s.push_str("0,500,4,2,0,60,1,0\n500,NaN,4,2,0,60,0,0\n"),
             Timing::T6 => s.push_str("0,500,4,2,0,60,1,0\n1200,300,4,2,0,60,1,0\n"),
+            Timing::T7 => s.push_str("0,500,4,2,0,60,1,0\n1000,-50,4,2,0,60,0,1\n1150,-100,4,2,0,60,0,0\n1300,-200,4,2,0,60,0,1\n"),
         }
         s.push_str("\n[HitObjects]\n");
         let mut t = i64::from(self.first_start);
